@@ -1,9 +1,55 @@
-import Driver.Util
+import Driver.TLVal
+import Mtv.TL.Decode
+import Mtv.Gen.Registry
 namespace Driver.C15
-open Mtv Driver
+open Mtv Mtv.TL Driver Driver.TLVal
 
-/-- operations of property C15; not built yet -/
+/-- hint types on the line protocol: `i32 i64 u32 f64 bool str bytes`, `p<hexid>` (pointer to a
+registered struct), `f<name>` (interface) — each meaning a slice of that element type -/
+def parseElem? (s : String) : Option Ty :=
+  match s with
+  | "i32" => some .int32
+  | "u32" => some .uint32
+  | "i64" => some .int64
+  | "f64" => some .f64
+  | "bool" => some .bool
+  | "str" => some .str
+  | "bytes" => some .bytes
+  | _ =>
+    match s.toList with
+    | 'p' :: r => (hexNat? r).map Ty.ptr
+    | 'f' :: r => some (.iface (String.ofList r))
+    | 'e' :: r => some (.enum (String.ofList r))
+    | _ => none
+
+def parseHints? (s : String) : Option (List Ty) :=
+  (splitComma s).mapM fun t => (parseElem? t).map Ty.vec
+
+/-- gzip table: `comp:plain;comp:plain` (hex), `-` for empty; a payload not in the table fails -/
+def parseGz? (s : String) : Option (List (Bytes × Bytes)) :=
+  if s = "-" then some [] else
+  (s.splitOn ";").mapM fun e =>
+    match e.splitOn ":" with
+    | [c, p] => do pure (← fromHex? c, ← fromHex? p)
+    | _ => none
+
+def gunzipOf (tbl : List (Bytes × Bytes)) (c : Bytes) : Option Bytes :=
+  (tbl.find? (fun e => e.1 == c)).map (·.2)
+
+def fuelFor (bs : Bytes) (tbl : List (Bytes × Bytes)) : Nat :=
+  64 * (bs.length + (tbl.foldl (fun a e => a + e.2.length) 0)) + 4096
+
 def handle : List String → String
+  | ["c15.unk", b, hints, gz] =>
+    match parseBytes? b, parseHints? hints, parseGz? gz with
+    | some bs, some hs, some tbl =>
+      showOutcome (decodeUnknown Mtv.Gen.registry (gunzipOf tbl) (fuelFor bs tbl) hs bs)
+    | _, _, _ => "bad-op"
+  | ["c15.named", id, b, gz] =>
+    match hexNat? id.toList, parseBytes? b, parseGz? gz with
+    | some id, some bs, some tbl =>
+      showOutcome (decodeNamed Mtv.Gen.registry (gunzipOf tbl) (fuelFor bs tbl) id bs)
+    | _, _, _ => "bad-op"
   | _ => "bad-op"
 
 end Driver.C15
